@@ -21,7 +21,7 @@ RULE = ("archives written by py7zr (every chain, header mode, +-password, 1..2 s
         "reference writer (layout features) and fixtures; opened by path. Oracle: getnames==namelist==list==files (stored order per reference "
         "reader); list().uncompressed == len(extracted bytes); crc32 == CRC32(extracted bytes); is_directory == extraction creates a directory; "
         "(archives whose coders nobody here can decode, e.g. BCJ2 fixtures: names, blocks, solid and size are still compared with the parsed header) "
-        "getinfo(name), getinfo(name+'/') find every listed name, KeyError otherwise; archiveinfo size/blocks/solid/method_names/uncompressed vs "
+        "stored names of 65535..70001 units at each position, the summary of an archive opened by a relative name after chdir(), folders with coders known by id only (ARM64, RISC-V, SWAP2, Lizard: one name per coder); getinfo(name), getinfo(name+'/') find every listed name, KeyError otherwise; archiveinfo size/blocks/solid/method_names/uncompressed vs "
         "reference reader; needs_password == (AES coder present or password supplied). Archives py7zr cannot open/extract are C06's business and "
         "are skipped here. Cell = (origin, chain/features, header, aes, kinds).")
 ASSUMPTIONS = ["the reference reader's view of folders/coders is the ground truth for the summary", "archiveinfo() is evaluated for the archive opened by path and, for its size, opened from a stream"]
@@ -69,6 +69,13 @@ def cases(rng, tier):
     for i in range(12 if tier == "quick" else 200):
         pattern = rng.choice([["pw", None], [None, "pw"], ["pw", "pw", None], [None, "pw", None], ["pw", None, None]])
         out.append({"kind": "mixed", "pattern": pattern, "sessions": [G.member_list(rng, n=rng.choice([1, 2]), max_len=3000) for _ in pattern], "seed": rng.getrandbits(30)})
+    # fourth hunt: a stored name of 65536 units or more; the summary of an archive opened by a relative name after chdir(); coders known by id only
+    for i, units in enumerate([65535, 65536, 65537, 70001] if tier == "quick" else [65535, 65536, 65537, 70001, 131072, 200000]):
+        out.append({"kind": "special", "shape": "longname", "units": units, "pos": i % 3})
+    for i in range(2 if tier == "quick" else 6):
+        out.append({"kind": "special", "shape": "chdir", "variant": i})
+    for i, ids in enumerate([["0a"], ["0b"], ["020302"], ["04f71106", "0a"]]):
+        out.append({"kind": "special", "shape": "unknown-coder", "ids": ids, "with_lzma2": i != 3})
     root = os.environ.get("VERIF_REPO", "/repo")
     for p in sorted(glob.glob(os.path.join(root, "tests", "data", "*.7z"))):
         if os.path.basename(p) not in FIXTURE_SKIP:
@@ -115,6 +122,99 @@ def _check_structure_only(path, data, password, supplied_password, viol, obs):
             z.close()
         except Exception:
             pass
+
+
+def _run_special(case):
+    import py7zr
+
+    viol = []
+    obs = {k: 0 for k in REQUIRED_OBS}
+    obs["special_shapes"] = 1
+    shape = case["shape"]
+
+    def fmem(name, data, i=0):
+        return {"name": name, "kind": "file", "data": data, "attributes": 0x20, "mtime": 132000000000000000 + i}
+
+    with pz.scratch("vf-c10s-") as d:
+        path = os.path.join(d, "s.7z")
+        if shape == "longname":
+            u = case["units"]
+            long = ("d/" * (u // 2))[: u - 2] + "ab"
+            names = ["a.txt", "b.txt", "c.txt"]
+            names.insert(case["pos"], long)
+            mem = [fmem(n, ("content of member %d " % i).encode() * (i + 3), i) for i, n in enumerate(names)]
+            with open(path, "wb") as f:
+                f.write(W.build(mem, {"folders": [{"n": len(mem), "chain": [{"m": "COPY"}], "crc": "sub"}], "header": "raw"}))
+            _check_archive(path, None, None, viol, obs, d, "ref")
+            cell = "special|longname|%d" % case["units"]
+        elif shape == "chdir":
+            cwd0 = os.getcwd()
+            for sub, n in (("a", 1), ("b", 40)):
+                os.mkdir(os.path.join(d, sub))
+                with py7zr.SevenZipFile(os.path.join(d, sub, "x.7z"), "w") as z:
+                    for i in range(n):
+                        z.writestr(b"member %d" % i * 20, "m%d.txt" % i)
+            os.mkdir(os.path.join(d, "c"))
+            want = os.path.getsize(os.path.join(d, "a", "x.7z"))
+            try:
+                os.chdir(os.path.join(d, "a"))
+                z = py7zr.SevenZipFile("x.7z" if case["variant"] % 2 == 0 else os.path.join(".", "x.7z"))
+                try:
+                    for where in ("b", "c"):
+                        os.chdir(os.path.join(d, where))
+                        obs["archiveinfo_checked"] += 1
+                        obs["archives_listed"] += 1
+                        try:
+                            ai = z.archiveinfo()
+                            if ai.size != want or ai.stat.st_size != want:
+                                viol.append({"key": "archiveinfo-size/after-chdir", "what": "archive opened as 'x.7z' (%d bytes), then chdir to a directory %s: archiveinfo() reports size %r / st_size %r" % (
+                                    want, "holding another x.7z" if where == "b" else "without an x.7z", ai.size, ai.stat.st_size)})
+                        except Exception as e:
+                            viol.append({"key": "archiveinfo-raises/%s/after-chdir" % type(e).__name__, "what": "archive opened as 'x.7z', then chdir: archiveinfo() raised %s while getnames() gives %d names" % (pz.exc_sig(e), len(z.getnames()))})
+                        obs["members_checked"] += len(z.getnames())
+                        obs["getinfo_calls"] += 1
+                        z.getinfo("m0.txt")
+                finally:
+                    z.close()
+            finally:
+                os.chdir(cwd0)
+            cell = "special|chdir"
+        else:
+            chain = [{"m": "RAWID", "id": i} for i in case["ids"]]
+            if case["with_lzma2"]:
+                chain = [chain[0], {"m": "LZMA2"}]
+            mem = [fmem("prog.bin", b"\x7fELF" + bytes(300)), fmem("b.txt", b"bbb" * 50, 1)]
+            data = W.build(mem, {"folders": [{"n": 2, "chain": chain, "crc": "sub"}], "header": "raw"})
+            with open(path, "wb") as f:
+                f.write(data)
+            lay = R.parse(data, None, decode=False, strict_tiling=False)
+            want = sorted({PY_NAME.get(nm, nm.upper() + "*") for f_ in lay.streams.folders for nm in f_.method_names()})
+            obs["archives_listed"] += 1
+            try:
+                with py7zr.SevenZipFile(path) as z:
+                    ai = z.archiveinfo()
+                    obs["archiveinfo_checked"] += 1
+                    obs["members_checked"] += len(z.getnames())
+                    obs["getinfo_calls"] += 1
+                    z.getinfo("b.txt")
+                got = sorted(set(ai.method_names))
+                # a coder the library has no name for may be spelled in any way that shows it: one name per coder present is what is required
+                if len(got) != len(want) or not set(x for x in want if not x.endswith("*") or x in PY_NAME.values()) <= set(got):
+                    viol.append({"key": "archiveinfo-methods/unknown-coder-dropped", "what": "folder coded with ids %r: method_names=%r (%d names for %d coders)" % (
+                        [c.method.hex() for f_ in lay.streams.folders for c in f_.coders], ai.method_names, len(got), len(want))})
+                if ai.blocks != 1:
+                    viol.append({"key": "archiveinfo-blocks", "what": "blocks=%r, archive has 1 folder" % ai.blocks})
+            except Exception as e:
+                # refusing to open an archive with an unknown coder is a legitimate answer: nothing is listed then
+                obs["unknown_coder_refused"] = 1
+            cell = "special|unknown-coder|%s" % "+".join(case["ids"])
+    sample = {"special": shape}
+    if viol:
+        seen = {}
+        for v in viol:
+            seen.setdefault(v["key"], v)
+        return K.result("violated", violations=list(seen.values()), cell=cell, obs=obs, sample=sample)
+    return K.result("held", cell=cell, obs=obs, sample=sample)
 
 
 def _check_archive(path, password, supplied_password, viol, obs, d, origin):
@@ -263,6 +363,8 @@ def _check_archive(path, password, supplied_password, viol, obs, d, origin):
 def run_case(case):
     import py7zr
 
+    if case["kind"] == "special":
+        return _run_special(case)
     viol, obs = [], {}
     with pz.scratch("vf-c10-") as d:
         path = os.path.join(d, "a.7z")
